@@ -352,18 +352,28 @@ Proof.
     rewrite !dy_eq_spec by lia. rewrite clon_num_R, calt_num_R by lia. auto.
 Qed.
 
-(* shared faces: the four corners of the common face are the same points *)
+(* shared faces: the four corners of the common face are the same points; across the antimeridian (axis 3) they differ only in the
+   name of the meridian: +180 on the east face of the last column, -180 on the west face of column 0 *)
+Definition anti_spec (a b : point) : Prop :=
+  plon a = 180%float /\ plon b = (-180)%float /\ plat a = plat b /\ palt a = palt b.
 Definition shared_spec (axis : Z) (a b : list point) : Prop :=
   exists a0 a1 a2 a3 a4 a5 a6 a7 b0 b1 b2 b3 b4 b5 b6 b7,
     a = [a0; a1; a2; a3; a4; a5; a6; a7] /\ b = [b0; b1; b2; b3; b4; b5; b6; b7] /\
     ((axis = 0 /\ a1 = b0 /\ a2 = b3 /\ a5 = b4 /\ a6 = b7) \/
      (axis = 1 /\ a3 = b0 /\ a2 = b1 /\ a7 = b4 /\ a6 = b5) \/
-     (axis = 2 /\ a4 = b0 /\ a5 = b1 /\ a6 = b2 /\ a7 = b3)).
+     (axis = 2 /\ a4 = b0 /\ a5 = b1 /\ a6 = b2 /\ a7 = b3) \/
+     (axis = 3 /\ anti_spec a1 b0 /\ anti_spec a2 b3 /\ anti_spec a5 b4 /\ anti_spec a6 b7)).
 Lemma point_eqb_bits_eq p q : point_eqb_bits p q = true <-> p = q.
 Proof.
   unfold point_eqb_bits. split.
   - rewrite !andb_true_iff. intros [[H1 H2] H3]. apply feqb_bits_eq in H1, H2, H3. destruct p, q; cbn in *; congruence.
   - intros ->. now rewrite !feqb_bits_refl.
+Qed.
+Lemma anti_pair_spec a b : anti_pair a b = true <-> anti_spec a b.
+Proof.
+  unfold anti_pair, anti_spec. rewrite !andb_true_iff. split.
+  - intros [[[H1 H2] H3] H4]. apply feqb_bits_eq in H1, H2, H3, H4. auto.
+  - intros (H1 & H2 & H3 & H4). rewrite H1, H2, H3, H4, !feqb_bits_refl. auto.
 Qed.
 Theorem check_shared_sound axis a b : check_shared axis a b = true <-> shared_spec axis a b.
 Proof.
@@ -371,11 +381,11 @@ Proof.
   - destruct a as [|a0 [|a1 [|a2 [|a3 [|a4 [|a5 [|a6 [|a7 [|a8 a]]]]]]]]]; try discriminate.
     destruct b as [|b0 [|b1 [|b2 [|b3 [|b4 [|b5 [|b6 [|b7 [|b8 b]]]]]]]]]; try discriminate.
     intros H. exists a0, a1, a2, a3, a4, a5, a6, a7, b0, b1, b2, b3, b4, b5, b6, b7. split; [reflexivity|]. split; [reflexivity|].
-    destruct (Z.eqb_spec axis 0); [|destruct (Z.eqb_spec axis 1); [|destruct (Z.eqb_spec axis 2); [|discriminate]]];
-      rewrite !andb_true_iff, !point_eqb_bits_eq in H; intuition.
+    destruct (Z.eqb_spec axis 0); [|destruct (Z.eqb_spec axis 1); [|destruct (Z.eqb_spec axis 2); [|destruct (Z.eqb_spec axis 3); [|discriminate]]]];
+      rewrite !andb_true_iff, ?point_eqb_bits_eq, ?anti_pair_spec in H; intuition.
   - intros (a0 & a1 & a2 & a3 & a4 & a5 & a6 & a7 & b0 & b1 & b2 & b3 & b4 & b5 & b6 & b7 & -> & -> & H).
-    destruct H as [(-> & -> & -> & -> & ->)|[(-> & -> & -> & -> & ->)|(-> & -> & -> & -> & ->)]]; cbn;
-      rewrite !andb_true_iff, !point_eqb_bits_eq; auto.
+    destruct H as [(-> & -> & -> & -> & ->)|[(-> & -> & -> & -> & ->)|[(-> & -> & -> & -> & ->)|(-> & H1 & H2 & H3 & H4)]]]; cbn;
+      rewrite !andb_true_iff, ?point_eqb_bits_eq, ?anti_pair_spec; auto.
 Qed.
 
 Lemma leb_ltb_false (a b : pfloat) : (a <=? b)%float = true -> (b <? a)%float = false.
@@ -471,7 +481,7 @@ Section Api.
     assert (C : axis = 0 \/ axis = 1 \/ axis = 2) by lia. destruct C as [-> | [-> | ->] ]; cbn [neighbour Z.eqb eh ex ey ev ef mk].
     - left. repeat split.
     - right. left. repeat split.
-    - right. right. repeat split.
+    - right. right. left. repeat split.
   Qed.
   Corollary shared_faces_pass_check i axis : valid i -> valid (neighbour axis i) -> 0 <= axis <= 2 ->
     check_shared axis (vertices_of i) (vertices_of (neighbour axis i)) = true.
@@ -609,3 +619,165 @@ Qed.
 
 Theorem check_roundtrip_sound i back : check_roundtrip i back = true <-> back = print_eid i.
 Proof. unfold check_roundtrip. apply String.eqb_eq. Qed.
+
+(* ---- review round: antimeridian, unconditional longitude half, minimal hypotheses for the altitude half, tiling on the float planes,
+        the row and centre-latitude checkers ---- *)
+Lemma isR_m180 : isR (-180)%float (-180)%R.
+Proof. apply (lit_isR _ (-180)); [cbn; lia | vm_compute; reflexivity]. Qed.
+
+(* the two names of the antimeridian: column boundary 0 is the float -180, column boundary 2^h is the float +180 *)
+Theorem antimeridian_planes h : 0 <= h <= 35 -> lonplane h (2 ^ h) = 180%float /\ lonplane h 0 = (-180)%float.
+Proof.
+  intros Hh. pose proof (pow_le35' h Hh) as Hp. split.
+  - apply isR_inj with 180%R; [|exact isR_180|lra].
+    rewrite <- (lonR_last h) by lia. apply lonplane_exact; lia.
+  - apply isR_inj with (-180)%R; [|exact isR_m180|lra].
+    rewrite <- (lonR_first h) by lia. apply lonplane_exact; lia.
+Qed.
+
+Lemma pt_of_lon lon lat alt r : isR lon r -> (Rabs r <= 180)%R -> plon (pt_of lon lat alt) = lon.
+Proof.
+  intros Hl Hr. unfold pt_of, new_point. rewrite (ltb_false _ _ _ _ isR_180 (abs_isR _ _ Hl) Hr).
+  destruct (c_latmax <? abs (setlat_trunc lat))%float; reflexivity.
+Qed.
+(* latitude and altitude stored by NewPoint do not depend on an (accepted) longitude *)
+Lemma pt_of_lat_alt lon lon' lat alt r r' : isR lon r -> (Rabs r <= 180)%R -> isR lon' r' -> (Rabs r' <= 180)%R ->
+  plat (pt_of lon lat alt) = plat (pt_of lon' lat alt) /\ palt (pt_of lon lat alt) = palt (pt_of lon' lat alt).
+Proof.
+  intros Hl Hr Hl' Hr'. unfold pt_of, new_point.
+  rewrite (ltb_false _ _ _ _ isR_180 (abs_isR _ _ Hl) Hr), (ltb_false _ _ _ _ isR_180 (abs_isR _ _ Hl') Hr').
+  destruct (c_latmax <? abs (setlat_trunc lat))%float; split; reflexivity.
+Qed.
+
+Section Review.
+  Variable m_sinh m_atan : pfloat -> pfloat.
+  Notation vertices_of := (vertices_of m_sinh m_atan).
+  Notation centre_of := (centre_of m_sinh m_atan).
+  Notation rowlat := (rowlat m_sinh m_atan).
+  Notation rowlat_stored := (rowlat_stored m_sinh m_atan).
+
+  (* the face between the last column and column 0 (same row, same level): +180 on one side, -180 on the other, same latitude and altitude;
+     any oracle, no latitude hypothesis; at zoom 0 the voxel is its own cyclic neighbour *)
+  Theorem antimeridian_face i : valid i -> ex i = 2 ^ eh i - 1 ->
+    shared_spec 3 (vertices_of i) (vertices_of (neighbour 3 i)).
+  Proof.
+    intros V Hx. change (neighbour 3 i) with (mk (eh i) 0 (ey i) (ev i) (ef i)).
+    assert (V' : valid (mk (eh i) 0 (ey i) (ev i) (ef i))).
+    { destruct V as (Hh & Hv & Hxx & Hy & Hf). pose proof (pow_le35' _ Hh). unfold valid; cbn [eh ex ey ev ef mk]. repeat split; lia. }
+    unfold VertexProofs.vertices_of. rewrite (vertices_planes m_sinh m_atan i V), (vertices_planes m_sinh m_atan _ V').
+    destruct V as (Hh & Hv & Hxx & Hy & Hf). pose proof (pow_le35' _ Hh) as Hp.
+    cbn [eh ex ey ev ef mk].
+    replace (ex i + 1) with (2 ^ eh i) by lia. destruct (antimeridian_planes _ Hh) as [EL EF]. rewrite EL. change (0 + 1) with 1. rewrite EF.
+    unfold shared_spec, box_corners. do 16 eexists. split; [reflexivity|]. split; [reflexivity|].
+    right. right. right. split; [reflexivity|].
+    assert (R1 : (Rabs 180 <= 180)%R) by (rewrite Rabs_pos_eq; lra).
+    assert (R2 : (Rabs (-180) <= 180)%R) by (rewrite Rabs_left; lra).
+    unfold anti_spec.
+    repeat split; first [ apply (pt_of_lon _ _ _ _ isR_180 R1) | apply (pt_of_lon _ _ _ _ isR_m180 R2)
+                        | apply (pt_of_lat_alt _ _ _ _ _ _ isR_180 R1 isR_m180 R2) ].
+  Qed.
+  Corollary antimeridian_face_passes_check i : valid i -> ex i = 2 ^ eh i - 1 ->
+    check_shared 3 (vertices_of i) (vertices_of (neighbour 3 i)) = true.
+  Proof. intros. apply check_shared_sound. now apply antimeridian_face. Qed.
+
+  (* longitude half of the round trip: no hypothesis on the oracle at all (NewPoint stores the longitude before it looks at the latitude) *)
+  Lemma corner_lons i : valid i ->
+    map plon (vertices_of i) =
+    let W := lonplane (eh i) (ex i) in let E := lonplane (eh i) (ex i + 1) in [W; E; E; W; W; E; E; W].
+  Proof.
+    intros V. unfold VertexProofs.vertices_of. rewrite (vertices_planes m_sinh m_atan i V). destruct V as (Hh & Hv & Hx & Hy & Hf).
+    pose proof (lonplane_exact (eh i) (ex i) Hh ltac:(lia)) as HW. pose proof (lonplane_exact (eh i) (ex i + 1) Hh ltac:(lia)) as HE.
+    pose proof (lonR_range (eh i) (ex i) ltac:(lia) ltac:(lia)) as RW. pose proof (lonR_range (eh i) (ex i + 1) ltac:(lia) ltac:(lia)) as RE.
+    unfold box_corners. cbn [map]. cbv zeta.
+    now rewrite !(pt_of_lon _ _ _ _ HW RW), !(pt_of_lon _ _ _ _ HE RE).
+  Qed.
+
+  Theorem centre_lon_any_oracle i : valid i -> plon (centre_of i) = clonf (eh i) (ex i).
+  Proof.
+    intros V. pose proof (corner_lons i V) as L. cbv zeta in L.
+    unfold VertexProofs.centre_of, VertexF.centre. fold (vertices_of i).
+    destruct (vertices_of i) as [|p0 ps] eqn:E; [discriminate L|].
+    rewrite L. assert (P0 : plon p0 = lonplane (eh i) (ex i)) by (cbn [map] in L; congruence). rewrite P0.
+    destruct V as (Hh & Hv & Hx & Hy & Hf).
+    assert (HWE : (lonplane (eh i) (ex i) <? lonplane (eh i) (ex i + 1))%float = true).
+    { apply (ltb_true _ _ _ _ (lonplane_exact (eh i) (ex i) Hh ltac:(lia)) (lonplane_exact (eh i) (ex i + 1) Hh ltac:(lia))). apply lonR_lt; lia. }
+    destruct (extremes_two _ _ HWE) as (E1 & E2 & _). rewrite E1, E2.
+    assert (C : ((lonplane (eh i) (ex i + 1) + lonplane (eh i) (ex i)) / 2)%float = clonf (eh i) (ex i)).
+    { unfold clonf, mid, lonplane. now rewrite (east_next (eh i) (ex i) Hh ltac:(lia)). }
+    rewrite C.
+    assert (R1 : isR (clonf (eh i) (ex i)) (clonR (eh i) (ex i))).
+    { rewrite <- clon_num_R by lia. unfold clon_num. now apply clonf_isR. }
+    apply (pt_of_lon _ _ _ _ R1). apply clonR_range; lia.
+  Qed.
+  Theorem centre_roundtrip_longitude i : valid i -> x_f (plon (centre_of i)) (eh i) = Some (ex i).
+  Proof. intros V. rewrite (centre_lon_any_oracle i V). destruct V as (Hh & Hv & Hx & _). now apply x_of_centre. Qed.
+
+  (* altitude half: needs only that NewPoint accepts the three latitudes involved (an ignored latitude error stores altitude 0) *)
+  Definition centre_lat_raw (i : eid) : pfloat :=
+    let N := rowlat_stored (eh i) (ey i) in let S := rowlat_stored (eh i) (ey i + 1) in
+    let l := [N; N; S; S; N; N; S; S] in ((fmax_list l N + fmin_list l N) / 2)%float.
+  Theorem centre_alt_accepted i : valid i ->
+    lat_acc (rowlat (eh i) (ey i)) = true -> lat_acc (rowlat (eh i) (ey i + 1)) = true -> lat_acc (centre_lat_raw i) = true ->
+    palt (centre_of i) = caltf (ev i) (ef i).
+  Proof.
+    intros V HN HS HC. unfold VertexProofs.centre_of, VertexF.centre. rewrite (vertices_explicit m_sinh m_atan i V HN HS).
+    destruct V as (Hh & Hv & Hx & Hy & Hf).
+    assert (HAT : (altplane (ev i) (ef i) <? altplane (ev i) (ef i + 1))%float = true).
+    { apply (ltb_true _ _ _ _ (altplane_exact (ev i) (ef i) Hv ltac:(lia)) (altplane_exact (ev i) (ef i + 1) Hv ltac:(lia))). apply altR_lt; lia. }
+    assert (HWE : (lonplane (eh i) (ex i) <? lonplane (eh i) (ex i + 1))%float = true).
+    { apply (ltb_true _ _ _ _ (lonplane_exact (eh i) (ex i) Hh ltac:(lia)) (lonplane_exact (eh i) (ex i + 1) Hh ltac:(lia))). apply lonR_lt; lia. }
+    destruct (extremes_two _ _ HAT) as (_ & _ & _ & _ & A1 & A2). destruct (extremes_two _ _ HWE) as (L1 & L2 & _).
+    cbn [box_points map plon plat palt mkp]. rewrite A1, A2, L1, L2.
+    fold (centre_lat_raw i).
+    assert (C : ((lonplane (eh i) (ex i + 1) + lonplane (eh i) (ex i)) / 2)%float = clonf (eh i) (ex i)).
+    { unfold clonf, mid, lonplane. now rewrite (east_next (eh i) (ex i) Hh ltac:(lia)). }
+    assert (D : ((altplane (ev i) (ef i + 1) + altplane (ev i) (ef i)) / 2)%float = caltf (ev i) (ef i)).
+    { unfold caltf, mid, altplane. now rewrite (top_is_next_bottom _ _ Hv Hf). }
+    rewrite C, D.
+    assert (R1 : isR (clonf (eh i) (ex i)) (clonR (eh i) (ex i))).
+    { rewrite <- clon_num_R by lia. unfold clon_num. now apply clonf_isR. }
+    rewrite (pt_of_ok _ _ _ _ R1 (clonR_range (eh i) (ex i) (proj1 Hh) Hx) HC). reflexivity.
+  Qed.
+  Theorem centre_roundtrip_altitude i : valid i ->
+    lat_acc (rowlat (eh i) (ey i)) = true -> lat_acc (rowlat (eh i) (ey i + 1)) = true -> lat_acc (centre_lat_raw i) = true ->
+    f_f (palt (centre_of i)) (ev i) = Some (ef i).
+  Proof. intros V HN HS HC. rewrite (centre_alt_accepted i V HN HS HC). destruct V as (Hh & Hv & Hx & Hy & Hf). now apply f_of_centre. Qed.
+End Review.
+
+(* tiling stated on the planes the code computes (composition of exactness and the real partition) *)
+Theorem lon_tiling_float h lon : 0 <= h <= 35 -> (-180 <= lon < 180)%R ->
+  exists! k, 0 <= k < 2 ^ h /\ (FR (lonplane h k) <= lon < FR (lonplane h (k + 1)))%R.
+Proof.
+  intros Hh Hl. destruct (lon_tiling h lon ltac:(lia) Hl) as (k & (Hk & B) & U). exists k. split.
+  - split; [exact Hk|]. rewrite (proj1 (lonplane_exact h k Hh ltac:(lia))), (proj1 (lonplane_exact h (k + 1) Hh ltac:(lia))). exact B.
+  - intros k' (Hk' & B'). apply U. split; [exact Hk'|].
+    rewrite (proj1 (lonplane_exact h k' Hh ltac:(lia))), (proj1 (lonplane_exact h (k' + 1) Hh ltac:(lia))) in B'. exact B'.
+Qed.
+Theorem alt_tiling_float v a : 0 <= v <= 35 -> (- IZR (2 ^ 25) <= a < IZR (2 ^ 25))%R ->
+  exists! f, - 2 ^ v <= f < 2 ^ v /\ (FR (altplane v f) <= a < FR (altplane v (f + 1)))%R.
+Proof.
+  intros Hv Ha. destruct (alt_tiling v a ltac:(lia) Ha) as (k & (Hk & B) & U). exists k. split.
+  - split; [exact Hk|]. rewrite (proj1 (altplane_exact v k Hv ltac:(lia))), (proj1 (altplane_exact v (k + 1) Hv ltac:(lia))). exact B.
+  - intros k' (Hk' & B'). apply U. split; [exact Hk'|].
+    rewrite (proj1 (altplane_exact v k' Hv ltac:(lia))), (proj1 (altplane_exact v (k' + 1) Hv ltac:(lia))) in B'. exact B'.
+Qed.
+
+(* the latitude checkers decide these relations on the observed values *)
+Definition rows_spec (rowf : pfloat -> option Z) (i : eid) (ps : list point) : Prop :=
+  exists p0 p1 p2 r rn rs, ps = p0 :: p1 :: p2 :: r /\ rowf (plat p0) = Some rn /\ rowf (plat p2) = Some rs /\
+    ey i - 1 <= rn <= ey i /\ ey i <= rs <= ey i + 1.
+Theorem check_rows_sound rowf i ps : check_rows rowf i ps = true <-> rows_spec rowf i ps.
+Proof.
+  unfold check_rows, rows_spec, row_tie. split.
+  - destruct ps as [|p0 [|p1 [|p2 r]]]; try discriminate.
+    destruct (rowf (plat p0)) as [rn|] eqn:A; [|discriminate]. destruct (rowf (plat p2)) as [rs|] eqn:B; [|discriminate].
+    rewrite !andb_true_iff, !Z.leb_le. intros H. exists p0, p1, p2, r, rn, rs. intuition.
+  - intros (p0 & p1 & p2 & r & rn & rs & -> & A & B & H1 & H2). rewrite A, B, !andb_true_iff, !Z.leb_le. lia.
+Qed.
+Theorem check_centre_lat_sound n s c : check_centre_lat n s c = true <->
+  (s <? c)%float = true /\ (c <? n)%float = true /\ c = setlat_trunc ((n + s) / 2)%float.
+Proof.
+  unfold check_centre_lat. rewrite !andb_true_iff. split.
+  - intros [[A B] C]. apply feqb_bits_eq in C. auto.
+  - intros (A & B & C). rewrite A, B. rewrite <- C. now rewrite feqb_bits_refl.
+Qed.
